@@ -443,6 +443,10 @@ def run(prog, rep, tier):
     from ..flow import check_undefined_attrs
     rep.rule('ATTR-defined', 'every self.X read names an attribute bound somewhere in the class family')
     check_undefined_attrs(prog, rep, ['tenpy/algorithms/mps_common.py', 'tenpy/algorithms/dmrg.py', 'tenpy/algorithms/vumps.py'])
+    from ..labels import check_labels
+    rep.rule('LABEL-known', 'typestate of leg-label sets: literal labels used on a local tensor '
+             'whose complete label set is known (literal transposition, contractions) exist on it')
+    check_labels(prog, rep, ['tenpy/algorithms/mps_common.py', 'tenpy/algorithms/dmrg.py', 'tenpy/algorithms/vumps.py'])
     return rep.finish(
         level='other',
         explanation='Protocol facts of the sweep framework decided per engine class: hook keys '
